@@ -751,6 +751,11 @@ def function(it, dotted, args, kwargs, fr, node):
 
 
 def builtin(it, name, args, kwargs, fr, node):
+    if name == "sorted" and len(args) == 1 and isinstance(args[0], (VList, VTuple)) and not kwargs:
+        cs = [it.facts.norm(x.p).const_value() if isinstance(x, VInt) else None for x in args[0].items]
+        if all(c is not None for c in cs):
+            return VList([VInt(P.const(int(c))) for c in sorted(cs)])
+        raise Unmodelled("sorted() of symbolic values")
     if name == "len":
         v = args[0]
         if isinstance(v, (VList, VTuple)):
